@@ -6,6 +6,9 @@ import Gts.Lemmas.Push
 import Gts.Lemmas.LocRoundTrip
 import Gts.Lemmas.CanonKeys
 import Gts.Lemmas.CanonRead
+import Gts.Lemmas.ParseInv
+import Gts.Lemmas.ParseSim
+import Gts.Lemmas.ParseGuardEx
 namespace Gts.C06
 open Gts Loc Pars
 
@@ -247,9 +250,9 @@ theorem accepted_fixed_point_full_refuted :
 example : printB (joined [point 3, between 3, point 3]) = [106, 111, 105, 110, 40, 52, 44, 51, 94, 52, 44, 52, 41] ∧
     printB (joined [point 3, point 3]) = [106, 111, 105, 110, 40, 52, 44, 52, 41] ∧ printB (point 3) = [52] := by decide +kernel
 
-/-! ### OPEN (audit S7, item 1(b)): parser results are canonical — NOT proved
+/-! ### parser results are canonical (audit S7, item 1(b)) — PROVED up to the coordinate clause
 
-FULL STATEMENT (not proved, believed true with the guards below):
+FULL STATEMENT as it was recorded OPEN (not proved in this form):
 
     theorem parse_result_canon (s : Pars.Bytes) (l : Loc) (r : Pars.Bytes)
         (hp : parseLocationK3 s = .ok (l, false, r))      -- accepted, parse-level K3 guard false (Spec/ParseK3.lean)
@@ -257,16 +260,101 @@ FULL STATEMENT (not proved, believed true with the guards below):
         (hadj : no `join(` of the text has two neighbouring `complement(` parts after flattening)
         : canonP l = true
 
-What exists: the guard itself (`parseLocationK3`, evaluated on both sides by the op `k3.parse`; the harness classifies
-failures of the string oracle with it), `join_canon_partial` (the `Join` step: needs `noAdjCompl` besides `joinK3 = false`,
-which is why `hadj` is in the statement), `complement_canon`, and the leaf cases (a contiguous result is canonical iff its
-coordinates are in range, by definition of `canonP`).  What is missing: (1) the simulation `parseLocationK3 s` = `parseLocation s`
-with a flag (a lock-step induction over the five mutual fuelled parsers of `LocParse`), (2) the invariant itself by the same
-induction — `multiple` yields a list of canonical parts, `orderOf` needs `Order` of canonical parts canonical (`flattenLocations`;
-no theorem yet), (3) the leaf parsers' coordinate bounds from the text.  No `…_partial` theorem is stated here: every part that
-closes today would not use its parser hypothesis (the objection of S7 to `accepted_fixed_point_partial`).  Note that `canonP`
-does NOT exclude empty or inverted spans (`canonP (ranged 4 4 false false) = true`): `join(5,5..4)` is accepted with the K3
-guard false, is canonical, and still loses a residue (`join_den_nonwf_refuted`, K6A). -/
+What IS proved (`parse_result_canon_partial` below), and what differs from the statement above:
+  * the two guards are ONE evaluation-level flag, `parseGuard s` (Gts/Spec/ParseGuard.lean): the flagged parser
+    `LocParseG.loc g` is the model's parser clause by clause with one more result component — "`g` was true on the
+    argument list of some `Join` the evaluation made" —, taken at `g = Loc.canonGuard` = `joinK3 ls || !noAdjCompl
+    (flatJList ls)`.  So `hadj` is the evaluation-level `noAdjCompl` flag on the PARSED PARTS of every `join(`, not a
+    predicate on the text.  (`LocParseK3` of Spec/ParseK3.lean, which the driver op `k3.parse` runs, is the same copy
+    at `g = joinK3`; the identity `LocParseK3.loc = LocParseG.loc joinK3` is NOT proved — it is not needed below.)
+  * the hypothesis is on the MODEL's parser (`parseLocation s = .ok (l, r)`), not on the copy: that the copy and
+    the model agree on outcome, location, rest and stack for EVERY guard is a theorem (`parse_flag_ghost`, from
+    `LocParseG.sim_all`: a lock-step induction over the five mutual fuelled parsers and the `more` loop);
+  * the coordinate hypothesis is on the RESULT (`coordsC coordOk l`), not on the text: the leaf parsers' bounds from
+    the text (`-5` is accepted as the point `-6`) are still missing — item (3) of the old list.
+The structural clauses need no coordinate hypothesis at all: `parse_result_struct`.  The guard cannot be dropped
+(`parse_result_guard_needed`: `join(4,3^4,4)` is accepted, flagged, and its result `join(4,4)` is not canonical).
+NOT proved: an unconditional shape theorem (`parse_result_shape`: "every accepted text yields a `joined` with at least
+two parts, none of them `joined`, and no `compl (compl _)`", without the guard) — the invariant goes through
+`join_struct`, which needs the guard; and the text-level forms of `hc` / `hadj`.  Note that `canonP` does NOT exclude
+empty or inverted spans (`canonP (ranged 4 4 false false) = true`): `join(5,5..4)` is accepted with the guard false, is
+canonical, and still loses a residue (`join_den_nonwf_refuted`, K6A). -/
+
+/-- **The flag of the flagged parser is ghost information**: for EVERY guard `g` on `Join` argument lists, the
+model's `AsLocation` is the flagged copy `parseLocationG g` (Gts/Spec/ParseGuard.lean) with the flag dropped —
+same acceptance, same error (failure or panic), same location, same unconsumed rest. -/
+theorem parse_flag_ghost (g : List Loc → Bool) (s : Pars.Bytes) :
+    parseLocation s = (parseLocationG g s).map (fun x => (x.1, x.2.2)) := parseLocation_eq_G g s
+
+/-- **Parser results are structurally canonical**: for every byte string `s`, if the model parser accepts `s`
+with result `l` and the evaluation-level guard of `s` is false (no `Join` the parser evaluated met the K3 shape or
+two neighbouring `Complemented` parts among its parsed arguments), then `l` satisfies every structural clause of
+`canonP` at every depth: a `joined` has at least two parts, none of them `joined`, and is a fixed point of `Join`; an
+`ordered` has at least two parts, none `ordered`; no `compl (compl _)`.  No hypothesis on the coordinates. -/
+theorem parse_result_struct (s : Pars.Bytes) (l : Loc) (r : Pars.Bytes)
+    (hp : parseLocation s = .ok (l, r)) (hg : parseGuard s = false) : structP l = true := by
+  obtain ⟨b, hb⟩ := parseLocationG_of_parseLocation canonGuard s l r hp
+  have hbf : b = false := by simpa [parseGuard, hb] using hg
+  subst hbf
+  exact parseLocationG_struct s l r hb
+
+/-- **Parser results are canonical** (partial: the coordinate clause is a hypothesis on the result, see the
+section comment): for every byte string `s`, if the model parser accepts `s` with result `l`, the evaluation-level
+guard of `s` is false and every coordinate of `l` lies in `0 .. 2^62`, then `canonP l = true` — so `l` is in the
+domain of the round trip `parse_print`, and printing it is a fixed point of parse-then-print. -/
+theorem parse_result_canon_partial (s : Pars.Bytes) (l : Loc) (r : Pars.Bytes)
+    (hp : parseLocation s = .ok (l, r)) (hg : parseGuard s = false) (hc : coordsC coordOk l = true) :
+    canonP l = true :=
+  (canonP_iff l).mpr ⟨hc, parse_result_struct s l r hp hg⟩
+
+/-- second clause of C06 for an accepted string, USING the string hypothesis (compare `accepted_fixed_point_partial`):
+an accepted, unflagged text whose result has coordinates in range prints to a fixed point of parse-then-print. -/
+theorem accepted_unflagged_fixed_point (s : Pars.Bytes) (l : Loc) (r : Pars.Bytes)
+    (hp : parseLocation s = .ok (l, r)) (hg : parseGuard s = false) (hc : coordsC coordOk l = true) :
+    parseLocation (printB l) = .ok (l, []) :=
+  parse_print l (parse_result_canon_partial s l r hp hg hc)
+
+/-- non-vacuity: the text `join(4,5)` is accepted, its guard is false, the coordinates of its result are in range
+(and the result is the two-part join).  A SHORT text: the fuelled parsers are compiled by well-founded recursion and
+do not reduce in the kernel, and their evaluation by `simp` (`geval_join2`) is exponential in the fuel
+`length + 2` — a three-part join with a `complement(` (`join(complement(4),5,7)`: `#eval` answers guard `false`,
+result `join(complement(4),5,7)`) is out of reach as a theorem. -/
+example : parseLocation (str "join(4,5)") = .ok (joined [point 3, point 4], []) ∧
+    parseGuard (str "join(4,5)") = false ∧ coordsC coordOk (joined [point 3, point 4]) = true := by
+  have ht : str "join(4,5)" = [106, 111, 105, 110, 40, 52, 44, 53, 41] := by decide +kernel
+  have hj : join [point 3, point 4] = joined [point 3, point 4] := Loc.beq_eq _ _ (by decide)
+  have hgd : canonGuard [point 3, point 4] = false := by decide
+  have hG : parseLocationG canonGuard [106, 111, 105, 110, 40, 52, 44, 53, 41] =
+      .ok (joined [point 3, point 4], false, []) := by
+    simp only [parseLocationG, P.run', ExceptT.run, StateT.run, List.length_cons, List.length_nil]
+    rw [geval_join2, hj, hgd]
+  refine ⟨?_, ?_, by decide⟩
+  · rw [parse_flag_ghost canonGuard, ht, hG]; rfl
+  · rw [parseGuard, ht, hG]
+
+/-- **the guard is needed, and it is raised where it has to be**: the text `join(4,3^4,4)` is accepted with the
+result `join(4,4)`, whose coordinates are in range and which is NOT canonical — so `parse_result_canon_partial`
+without `hg` is false —, and its guard is TRUE (by `parse_result_struct` itself: were it false, the result would be
+structurally canonical). -/
+theorem parse_result_guard_needed :
+    ¬ (∀ (s : Pars.Bytes) (l : Loc) (r : Pars.Bytes), parseLocation s = .ok (l, r) → coordsC coordOk l = true →
+        canonP l = true) ∧
+    parseLocation (printB (joined [point 3, between 3, point 3])) = .ok (joined [point 3, point 3], []) ∧
+    parseGuard (printB (joined [point 3, between 3, point 3])) = true := by
+  have h1 : parseLocation (printB (joined [point 3, between 3, point 3])) = .ok (joined [point 3, point 3], []) := by
+    rw [written_join_read_back (point 3) [between 3, point 3] (by decide)]
+    exact congrArg (fun x => Except.ok (x, [])) (Loc.beq_eq _ _ (by decide))
+  refine ⟨?_, h1, ?_⟩
+  · intro h
+    have := h _ _ _ h1 (by decide)
+    revert this
+    decide
+  · cases hq : parseGuard (printB (joined [point 3, between 3, point 3])) with
+    | true => rfl
+    | false =>
+      have := parse_result_struct _ _ _ h1 hq
+      revert this
+      decide
 
 /-- FULL STATEMENT WITHOUT `wfList` (false, known finding K6A): "the reductions of `Join` keep the denoted
 residues for ALL argument lists as long as the K2 rule does not fire".  `join_den_partial` needs every range
